@@ -1397,7 +1397,7 @@ def c04(tier, seed):
 def c01(tier, seed):
     c03 = [o for o in PROPS['C03']['obligations'](tier, seed) if o.name.startswith(('rec.', 'mds.'))]
     # check.repair_step takes ~10 minutes: in the quick tier it runs under C05 only
-    fixside = checkgate_obs() + import_obs() + search_obs() + writeback_obs() + filepost_obs() + links_obs() + [o for o in openmode_obs() if o.name in ('handle.read', 'handle.write', 'handle.utime', 'handle.create')]
+    fixside = checkgate_obs() + scanalloc_obs() + import_obs() + search_obs() + writeback_obs() + filepost_obs() + links_obs() + [o for o in openmode_obs() if o.name in ('handle.read', 'handle.write', 'handle.utime', 'handle.create')]
     return c03 + [o for o in check_obs(tier) if tier == 'thorough' or o.name != 'check.repair_step'] + elem_obs(tier) + fixside
 
 
